@@ -6,7 +6,7 @@
                    /\ every filed router's source network is a key of self.routers.
    "At most one next hop per (snet, dnet)" is the functionality of the lookup together with
    C19_one_next_hop. *)
-From Bac Require Import Base RouterCache RouterCacheFacts RouterCacheSweep.
+From Bac Require Import Base RouterCache RouterCacheFacts RouterCacheRenum RouterCacheSweep.
 Open Scope Z_scope.
 
 Theorem C19_init : Coherent empty.
@@ -84,54 +84,71 @@ Theorem C19_forget_neither_refused : forall s sn, delete_router_info s sn None N
 Proof. exact forget_neither. Qed.
 Print Assumptions C19_forget_neither_refused.
 
-(* PARTIAL: of update_source_network only the case "nothing filed under the old number" is proved
-   (no change).  Missing: that the general case never raises KeyError on a coherent cache, keeps it
-   coherent, and moves exactly the old network's lookups to the new number (replacing what was
-   there).  That is covered by the correspondence after every operation and by the direct
-   breadth-first predicate only. *)
-Theorem C19_renumber_partial : forall s old new, zmem old (nets s) = false ->
+(* The model keeps Python dicts as association lists; WF says no key occurs twice in `routers` or in
+   any record's `dnets` (a dict cannot), Inv s := Coherent s /\ WF s.  Both hold initially and are
+   re-established by every operation (C19_history_invariant). *)
+
+(* renumbering a source network under which something is filed: never an exception, the invariant
+   is kept, exactly the old network's lookups and records move to the new number (replacing whatever
+   was filed there), every other network is untouched *)
+Theorem C19_renumber : forall s old new, Inv s -> zmem old (nets s) = true ->
+  exists s', update_source_network s old new = Ok s' /\ Inv s' /\
+    (forall sn0 d0, get_router_info s' sn0 d0 =
+       if sn0 =? new then get_router_info s old d0
+       else if sn0 =? old then None else get_router_info s sn0 d0) /\
+    (forall sn0 a0, rget s' sn0 a0 =
+       if sn0 =? new then rget s old a0 else if sn0 =? old then None else rget s sn0 a0).
+Proof. exact renumber_ok. Qed.
+Print Assumptions C19_renumber.
+
+(* ... and with nothing filed under the old number it changes nothing *)
+Theorem C19_renumber_unknown : forall s old new, zmem old (nets s) = false ->
   update_source_network s old new = Ok s.
 Proof. exact renumber_unknown. Qed.
-Print Assumptions C19_renumber_partial.
+Print Assumptions C19_renumber_unknown.
 
-(* PARTIAL, bounded: renumbering after EVERY history of length <= 2 over the 54-operation alphabet
-   sweep_alphabet (learn one/two destinations, forget router, forget destination, renumber; 2 source
-   nets + a fresh number x 3 routers x 4 destinations), for the six renumberings sweep_renums
-   (including onto an occupied number and onto itself): never an exception, coherent afterwards.
-   A complete sweep of that finite domain inside the kernel (forallb ... = true by vm_compute,
-   lifted with forallb_forall and coh_b_sound), not a proof for all states. *)
-Theorem C19_renumber_swept_partial : forall h r, In h sweep_histories -> In r sweep_renums ->
-  exists s', step (run empty h) r = Ok s' /\ Coherent s'.
-Proof. exact sweep_renumber. Qed.
-Print Assumptions C19_renumber_swept_partial.
-
-(* the boolean coherence test used by the sweep implies the invariant *)
+(* the boolean coherence test (used by tests) implies the invariant's first half *)
 Theorem C19_coherence_test_sound : forall s, coh_b s = true -> Coherent s.
 Proof. exact coh_b_sound. Qed.
 Print Assumptions C19_coherence_test_sound.
 
-(* PARTIAL (same gap): histories of any length without renumbering.  Every operation either
-   succeeds or is the refused delete_router_info(snet); the cache stays coherent. *)
-Theorem C19_history_coherent_partial : forall h, no_renum h -> Coherent (run empty h).
-Proof. intros h H. exact (run_coherent h empty coherent_empty H). Qed.
-Print Assumptions C19_history_coherent_partial.
+(* histories of ANY length over {learn, status, all forms of forget, renumber}: the invariant holds
+   throughout, hence the cache is coherent *)
+Theorem C19_history_invariant : forall h, Inv (run empty h).
+Proof. exact history_inv. Qed.
+Print Assumptions C19_history_invariant.
 
-Theorem C19_history_no_exception_partial : forall h o, no_renum h -> is_renum o = false ->
-  (exists s', step (run empty h) o = Ok s' /\ Coherent s') \/
+Theorem C19_history_coherent : forall h, Coherent (run empty h).
+Proof. intros h. exact (proj1 (history_inv h)). Qed.
+Print Assumptions C19_history_coherent.
+
+(* every operation after any history succeeds or is the refused delete_router_info(snet) *)
+Theorem C19_history_no_exception : forall h o,
+  (exists s', step (run empty h) o = Ok s' /\ Inv s') \/
   (refused o /\ step (run empty h) o = Err RuntimeErr).
-Proof. intros h o H Ho. exact (step_ok _ o (run_coherent h empty coherent_empty H) Ho). Qed.
-Print Assumptions C19_history_no_exception_partial.
+Proof. intros h o. exact (step_inv _ o (history_inv h)). Qed.
+Print Assumptions C19_history_no_exception.
 
-(* after any such history the newest announcement decides, and only for its destinations *)
-Theorem C19_history_newest_wins_partial : forall h sn a ds st d, no_renum h -> In d ds ->
+(* after any history the newest announcement decides, and only for its destinations *)
+Theorem C19_history_newest_wins : forall h sn a ds st d, In d ds ->
   get_router_info (run empty (h ++ [Learn sn a ds st])) sn d = Some a.
-Proof. exact history_newest_wins. Qed.
-Print Assumptions C19_history_newest_wins_partial.
+Proof. exact history_newest_wins_all. Qed.
+Print Assumptions C19_history_newest_wins.
 
-Theorem C19_history_frame_partial : forall h sn a ds st sn0 d0, no_renum h -> (sn0 <> sn \/ ~ In d0 ds) ->
+Theorem C19_history_frame : forall h sn a ds st sn0 d0, (sn0 <> sn \/ ~ In d0 ds) ->
   get_router_info (run empty (h ++ [Learn sn a ds st])) sn0 d0 = get_router_info (run empty h) sn0 d0.
-Proof. exact history_frame. Qed.
-Print Assumptions C19_history_frame_partial.
+Proof. exact history_frame_all. Qed.
+Print Assumptions C19_history_frame.
+
+(* after any history a renumbering moves exactly the old network's lookups *)
+Theorem C19_history_renumber : forall h old new sn0 d0,
+  get_router_info (run empty (h ++ [Renum old new])) sn0 d0 =
+    if zmem old (nets (run empty h))
+    then (if sn0 =? new then get_router_info (run empty h) old d0
+          else if sn0 =? old then None else get_router_info (run empty h) sn0 d0)
+    else get_router_info (run empty h) sn0 d0.
+Proof. exact history_renumber. Qed.
+Print Assumptions C19_history_renumber.
 
 (* non-vacuity: a coherent non-empty cache, and the repaired-defect histories evaluated *)
 Example C19_example_history :
@@ -142,18 +159,23 @@ Proof. vm_compute. reflexivity. Qed.
 Example C19_example_coherent_nonempty : exists s, Coherent s /\ get_router_info s 1 10 = Some 1.
 Proof.
   exists (run empty [Learn 1 1 [10; 11] 0]). split; [|vm_compute; reflexivity].
-  apply C19_history_coherent_partial. reflexivity.
+  apply C19_history_coherent.
 Qed.
-Example C19_example_no_renum : no_renum [Learn 1 1 [10] 0; Forget 1 None (Some [10]); Status 1 1 2; Forget 1 (Some 1) None].
-Proof. reflexivity. Qed.
-Example C19_example_sweep_domain :
-  In [] sweep_histories /\ In (Renum 1 2) sweep_renums /\
-  length sweep_alphabet = 54%nat /\ length sweep_histories = 2971%nat /\
-  nth_error sweep_histories 100 = Some [Learn 1 1 [10] 0; Forget 2 (Some 3) None].
-Proof.
-  split; [left; reflexivity|]. split; [left; reflexivity|].
-  split; [vm_compute; reflexivity|]. split; vm_compute; reflexivity.
-Qed.
+(* the same MAC on two source networks: forgetting on network 1 leaves network 2 alone *)
+Example C19_example_same_mac :
+  let s := run empty [Learn 1 1 [10; 11] 0; Learn 2 1 [10; 12] 0; Forget 1 (Some 1) None] in
+  (get_router_info s 1 10, get_router_info s 1 11, get_router_info s 2 10, get_router_info s 2 12, zlen (routers s))
+  = (None, None, Some 1, Some 1, 1).
+Proof. vm_compute. reflexivity. Qed.
+(* a third router takes destinations from two different owners: both lose them *)
+Example C19_example_two_owners :
+  let s := run empty [Learn 1 1 [10; 12] 0; Learn 1 2 [11] 0; Learn 1 3 [10; 11] 0] in
+  (get_router_info s 1 10, get_router_info s 1 11, get_router_info s 1 12, rget s 1 2, zlen (routers s), zlen (paths s))
+  = (Some 3, Some 3, Some 1, None, 2, 3).
+Proof. vm_compute. reflexivity. Qed.
+Example C19_example_renumber_hypothesis :
+  zmem 1 (nets (run empty [Learn 1 1 [10] 0; Learn 2 2 [10] 0])) = true.
+Proof. vm_compute. reflexivity. Qed.
 (* the three repaired defects, on the model of the repaired code *)
 Example C19_example_forget_dnets_no_nameerror :
   step (run empty [Learn 1 1 [10; 11] 0]) (Forget 1 None (Some [10])) <> Err NameErr /\
